@@ -3,6 +3,8 @@ import Firebolt.Properties.ExecFlow
 import Firebolt.Properties.ExecNet
 import Firebolt.Generated.Source
 import Firebolt.Expected.Source
+import Firebolt.Generated.Closure
+import Firebolt.Expected.Closure
 /-!
 # C02 — Failed events reach exactly the node's own error handler, once
 Denotational part (every tree, oracle, stream); the operational part (every interleaving) is in `Properties/Exec*.lean`.
@@ -79,5 +81,9 @@ theorem tree_handler_any_global_schedule (cfg : Path → Cfg) (caps : Path → N
 theorem source_getNodeType : GeneratedSrc.getNodeType = ExpectedSrc.getNodeType := by rfl
 theorem source_invokeProcessorSync : GeneratedSrc.invokeProcessorSync = ExpectedSrc.invokeProcessorSync := by rfl
 theorem source_invokeProcessorFanout : GeneratedSrc.invokeProcessorFanout = ExpectedSrc.invokeProcessorFanout := by rfl
+
+/-! ### influence closure: the pinned functions, and every function of the repository that writes a struct field or package
+variable they read, are unchanged (digests regenerated from /repo on every run; a difference names the functions) -/
+theorem closure_unchanged : GeneratedClo.C02 = ExpectedClo.C02 := by rfl
 
 end Firebolt.C02
